@@ -246,6 +246,36 @@ def diff_snap(a, b):
     return [k for k in a if a[k] != b.get(k)]
 
 
+DERIVED = ('copy', 'as_dataframe', 'subset')
+
+
+def derive_world(w, variant):
+    """A world whose array arguments are DERIVED from those of `w` the way a program derives tables: `copy()` then
+    edit, `as_dataframe()` of an edited frame, or a boolean-mask subset.  All three copy `meta` shallowly, so anything
+    an earlier call cached on the original object (or in its meta) is shared with the derived one; the values differ
+    (log2 moved by 0.25 on every second row; the subset drops every 7th row of the bin / segment tables)."""
+    import numpy as np, pandas as pd
+    out = dict(w)
+    for k, v in w.items():
+        if not (hasattr(v, 'data') and isinstance(v.data, pd.DataFrame)):
+            continue
+        df = v.data.copy()
+        if 'log2' in df.columns:
+            df['log2'] = df['log2'] + np.where(np.arange(len(df)) % 2 == 0, 0.25, 0.0)
+        if variant == 'copy':
+            o = v.copy()
+            o.data = df
+        elif variant == 'as_dataframe':
+            o = v.as_dataframe(df)
+        else:
+            if k in ('cnr', 'cns', 'cns_sm', 'varr'):
+                o = v[np.arange(len(v)) % 7 != 3]
+            else:
+                o = v[np.ones(len(v), dtype=bool)]
+        out[k] = o
+    return out
+
+
 def reference_main(out_path):
     """fresh interpreter: every op on its own pristine world"""
     import warnings, logging
@@ -259,6 +289,14 @@ def reference_main(out_path):
             res[name] = canon(f(w, 1))
         except Exception as e:   # noqa
             res[name] = {'__exc__': type(e).__name__ + ': ' + str(e)[:200]}
+    # the same ops on worlds derived from a pristine world nothing has been called on
+    for variant in DERIVED:
+        for name, f in ops.items():
+            w = derive_world(build_world(), variant)
+            try:
+                res['%s@%s' % (name, variant)] = canon(f(w, 1))
+            except Exception as e:   # noqa
+                res['%s@%s' % (name, variant)] = {'__exc__': type(e).__name__ + ': ' + str(e)[:120]}
     json.dump(res, open(out_path, 'w'))
 
 
@@ -291,7 +329,9 @@ def run(ck, scratch):
                'segmenters; after every call: result == same call in a fresh interpreter on pristine objects, every argument '
                'object deep-equal to its snapshot (values, index, dtypes, meta minus chr_x/chr_y); plus 1..5 repeated '
                'ensure_path+write rounds incl. pre-existing numbered files vs the Coq model. non-trivial = call whose result '
-               'is a non-empty table/list; distinct by (history prefix, op, processes)')
+               'is a non-empty table/list; distinct by (history prefix, op, processes). Then every operation once more on '
+               'arguments DERIVED (copy()+edit / as_dataframe() / boolean-mask subset, all sharing meta) from the objects the '
+               'histories used, compared with the same derivation of pristine objects in the fresh interpreter')
     ck.explanation = ('Props/C10.v: ensure_path discipline proved for every directory state and every number of rounds; frame '
                       'theorems (history independence, argument frame) proved for the pure model. The refinement of the real '
                       'Python objects / global generators / process pools to that model is runtime state and is validated by '
@@ -308,7 +348,7 @@ def run(ck, scratch):
     if p.returncode != 0:
         raise RuntimeError('reference interpreter failed: ' + p.stdout.decode()[-1500:])
     ref = json.load(open(ref_path))
-    bad_ref = {k: v for k, v in ref.items() if isinstance(v, dict) and '__exc__' in v}
+    bad_ref = {k: v for k, v in ref.items() if '@' not in k and isinstance(v, dict) and '__exc__' in v}
     if bad_ref:
         raise RuntimeError('operations fail on pristine objects (harness/world problem): %r' % bad_ref)
     ops = make_ops()
@@ -362,6 +402,34 @@ def run(ck, scratch):
                     n, changed, first_diff(snap0[changed[0]], s[changed[0]])), case, clause='C10_args_frame')
                 world = build_world()     # restore so later steps are judged on their own
             done.append([n, pr])
+    # ---- derived arguments: every op was just run (several times) on `world`; now run it on tables derived from
+    #      those very objects and compare with the same derivation of a pristine world in the fresh interpreter
+    for variant in DERIVED:
+        dw = derive_world(world, variant)
+        dsnap = snapshot(dw)
+        for n in names:
+            if ck.tier == 'quick' and n in ('segment_hmm_germline',) and variant != 'copy':
+                continue
+            np.random.seed(ck.rng.randrange(2 ** 32))
+            random.seed(ck.rng.randrange(2 ** 32))
+            case = {'history': 'every operation on the original objects, then %s on arguments derived by %s' % (n, variant)}
+            try:
+                res = canon(ops[n](dw, 1))
+            except Exception as e:   # noqa
+                res = {'__exc__': type(e).__name__ + ': ' + str(e)[:120]}
+            traces += 1
+            ck.count(case, nontrivial=bool(res) and not (isinstance(res, dict) and '__exc__' in res), cls='derived:' + variant)
+            want = ref['%s@%s' % (n, variant)]
+            if res != want:
+                ck.violation('%s on arguments derived (%s) from objects used by earlier calls differs from the same '
+                             'derivation of pristine objects in a fresh interpreter: %s' % (n, variant, first_diff(want, res)),
+                             case, clause='C10_history_independent')
+            s2 = snapshot(dw)
+            if s2 != dsnap:
+                changed = diff_snap(dsnap, s2)
+                ck.violation('%s modified its (derived) caller-owned argument(s) %s' % (n, changed), case, clause='C10_args_frame')
+                dw = derive_world(world, variant)
+                dsnap = snapshot(dw)
     ck.extra['traces_validated_against_impl'] = traces
     ck.extra['operations'] = names
     ck.rule = ck.rule.replace('%d operations', '%d operations' % len(names))
